@@ -85,6 +85,13 @@ def check_id_freshness(ck: Checker, rid: str):
             probs = []
             for nm in names:
                 probs += fresh_chain(cfg, n, nm, sources=SOURCES, params=params)
+            # a message emitted once per element of an id list must be keyed by the loop variable itself
+            if isinstance(item, ast.Tuple) and n.loops:
+                hn = cfg.nodes[n.loops[-1]]
+                if hn.kind == 'for' and isinstance(hn.ast.target, ast.Name) and isinstance(hn.ast.iter, ast.Name):
+                    used = {x.id for x in walk_shallow(item) if isinstance(x, ast.Name)}
+                    if hn.ast.target.id not in used and hn.ast.iter.id in used:
+                        probs.append(f'inside `for {hn.ast.target.id} in {hn.ast.iter.id}` the message is keyed by `{norm_text(item.elts[0])}`, not by the loop variable: every element of the list gets the same id')
             total += 1
             probs = sorted(set(probs))
             ck.ob(rid, f, call, not probs, '; '.join(probs) if probs else f'{what} put on `{dotted(call.func.value)}`: every component was obtained in the current iteration on every path')
